@@ -66,7 +66,7 @@ OVERLAPS = ['overlap-threads', 'overlap-nested', 'overlap-barrier']
 def gen_cfg(rng):
     cfg = dict(DEFAULT_CFG)
     r = rng.random()
-    cfg['n_workers'] = None if r < 0.5 else 1 if r < 0.6 else 2 if r < 0.75 else 3 if r < 0.8 else 8
+    cfg['n_workers'] = None if r < 0.68 else 1 if r < 0.74 else 2 if r < 0.86 else 3 if r < 0.91 else 8
     cfg['path'] = rng.choice(['str', 'str', 'Path', 'existing', 'trailing-slash', 'nested-missing'])
     cfg['author'] = rng.choice(['nobody', 'Jean Valjean', "l'auteur {x}", 'é"'])
     cfg['version'] = rng.choice(['0', '1.2.3', '{v}'])
@@ -274,7 +274,7 @@ def gen_cases(ctx, pool):
         ['M', [], [['A', [], [['S', [1], [leaf('x')], 's1'], ['S', [1], [leaf('x')], 's1']]]]],
     ]
     ctx.count('corpus', len(cases))
-    nrand = 380 if quick else 6000
+    nrand = 300 if quick else 6000
     for k in range(nrand):
         r = rng.random()
         flaw = None
@@ -444,13 +444,14 @@ def run_overlap(trees, mode, cfg, pool, TestReport, target, write):
     to a directory of its own; returns one observation per report (tagged with its tree)'''
     import threading
     n = len(trees)
-    rsts, fmts, errs, started = [None] * n, [None] * n, [None] * n, [False] * n
+    rsts, fmts, errs, started, passed = [None] * n, [None] * n, [None] * n, [False] * n, [False] * n
     parties = sum(1 for t in trees if nresults(t) > 0)
     barrier = threading.Barrier(parties) if mode == 'overlap-barrier' and parties > 1 else None
 
     def run(i):
         def hook():
             if barrier is not None:
+                passed[i] = True
                 try:
                     barrier.wait(timeout=2.0)
                 except threading.BrokenBarrierError:
@@ -465,6 +466,8 @@ def run_overlap(trees, mode, cfg, pool, TestReport, target, write):
             fmts[i] = rsts[i].format_report(report=report, author=cfg['author'], version=cfg['version'])
         except Exception as exc:     # noqa
             errs[i] = type(exc).__name__
+        if barrier is not None and not passed[i] and nresults(trees[i]) > 0:
+            barrier.abort()          # refused before the gate: nobody has to wait for this report
 
     def launch(i):
         if mode == 'overlap-nested':
@@ -781,7 +784,7 @@ def gen_child_cases(ctx, pool):
     cases = [{'tree': tree, 'cfg': dict(DEFAULT_CFG)} for tree in trees]
     cases.append({'tree': trees[1], 'cfg': dict(DEFAULT_CFG, n_workers=2, path='nested-missing')})
     cases.append({'tree': trees[0], 'cfg': dict(DEFAULT_CFG, history='two-dirs', path='Path')})
-    nrand = 22 if ctx.tier == 'quick' else 300
+    nrand = 16 if ctx.tier == 'quick' else 300
     while len(cases) < len(trees) + 2 + nrand:
         tree = gen_tree(rng, rng.choice([2, 3, 4]), rng.choice([None, None, None, 'bad', 'dup', 'variant-sibling',
                                                                 'shared-subreport']), pool)
@@ -813,7 +816,7 @@ def run(ctx):
                 'from index only by whitespace, trailing dots or unicode form 12% / 5% (valid: two pages)), results '
                 'i, i+4, i+8 of the pool share their test name, results from a pool of 12 real TestEqual/TestStudent '
                 'results with distinct fingerprints, 8 of them with a plot; non-trivial = written with >= 3 pages '
-                'or rejected; every tree is written under a configuration: Rst(n_workers) None 50% / 1 / 2 / 3 / 8 (the '
+                'or rejected; every tree is written under a configuration: Rst(n_workers) None 68% / 1 / 2 / 3 / 8 (the '
                 'multiprocessing branch of write(), with 0, 1, fewer, as many, more plots than workers), target given as '
                 'str / Path / existing directory / with trailing slash / below missing parents, author and version '
                 'strings, and a history on the Rst / FormattedRst objects (45%: write to two / three directories, twice to '
@@ -823,6 +826,8 @@ def run(ctx):
                 'overlapping times (threads / nested / barrier, overlap made deterministic by a gate in the '
                 'representation) and every report is written and checked; a sample with nested sections is also written '
                 'by child interpreters (python -O, -OO, other hash seed); distinct by (tree, configuration)')
+    import time
+    t_start = time.time()
     cases = gen_cases(ctx, pool)
     wdir = os.path.join(ctx.wd(), 'c20')
     done = []
@@ -849,6 +854,7 @@ def run(ctx):
             ctx.count('pages_written', len(obs['pages']))
             ctx.count('figures_written', len(obs['figs']))
     shutil.rmtree(wdir, ignore_errors=True)
+    t_main = time.time()
     # the same kind of cases through child interpreters with other flags (python -O, -OO, ...)
     child_cases = gen_child_cases(ctx, pool)
     interps = INTERPRETERS[:2] if ctx.tier == 'quick' else INTERPRETERS
@@ -863,6 +869,7 @@ def run(ctx):
             ctx.case_seen({'tree': case['tree'], 'cfg': cfg}, True)
             ctx.count('interpreter_' + ' '.join(interp['flags']))
             ctx.count('directories_observed', len(all_obs))
+    t_child = time.time()
     shard_size = 80
     shards = []
     for k in range(0, len(done), shard_size):
@@ -878,6 +885,9 @@ def run(ctx):
                          {'tree': tree, 'cfg': cfg, 'observed': {'raised': obs['raised'], 'files': obs['files'],
                                                      'pages': obs['pages'], 'figs': obs['figs']}})
     ctx.extra['model_cases_compared'] = len(done)
+    ctx.extra['phase_seconds'] = {'implementation_and_oracle': round(t_main - t_start, 1),
+                                  'child_interpreters': round(t_child - t_main, 1),
+                                  'model_in_coq': round(time.time() - t_child, 1)}
     ctx.assumptions = ['only the drawing is stubbed (MplPlot.save -> a small file, also in the worker processes); which '
                        'plots are saved and through which branch is the code\'s own write()',
                        'toctree entries are read literally (Sphinx: relative to the directory of the page); '
